@@ -72,6 +72,13 @@ def cases(shard, nshards, seed, tier):
         rng = random.Random(f"{seed}:C13:r:{i}")
         n, pairs = gen2d.random_stems(rng, rng.randint(2, 6), maxlen=rng.choice([1, 3, 6]), spacer=(0, 2), shape=rng.choice([None, "ladder", "chain"]))
         structs.append(("random", n, pairs))
+    # the notation asked for through the 3D mapping (one text per strand, optionally with gap placeholders),
+    # under every cell of the matrix
+    for fn in ("tests/1E7K_1_C.cif", "tests/1ehz-assembly-1.cif", "tests/488d.pdb", "tests/4qln.cif"):
+        for gaps in (False, True):
+            for cfg, beh in cells():
+                if mine():
+                    yield {"family": "from-3d", "file": fn, "ops": [], "gaps": gaps, "config": cfg, "behaviour": beh}
     for fam, n, pairs in structs:
         for cfg, beh in cells():
             for entry in ENTRIES:
@@ -152,6 +159,13 @@ class _Inject:
 
 
 def run_case(case, rec):
+    if case["family"] == "from-3d":
+        from vmon.props import c01
+
+        case = dict(case, cell=f"{case['config']}/{case['behaviour']}")
+        with _Inject(case["config"], case["behaviour"]):
+            c01._from_3d(case, rec, clause="from3d.lossless-under-fault")
+        return
     n, pairs = case["n"], [tuple(p) for p in case["pairs"]]
     cfg, beh, entry = case["config"], case["behaviour"], case["entry"]
     b = mon2d.make_bpseq(n, pairs)
